@@ -22,6 +22,16 @@ type stepRec struct {
 	postM      *ref.VMap
 	postT      *ref.Tree
 	cleanAfter bool
+	// orig is the record this one stands for when it describes the retry of an
+	// interrupted step on a crash image (second stop, mode "nested").
+	orig *stepRec
+}
+
+func (r *stepRec) self() *stepRec {
+	if r.orig != nil {
+		return r.orig
+	}
+	return r
 }
 
 func c05Bias(tier string) drv.Bias {
@@ -249,6 +259,7 @@ func execC05(p *drv.Plan) *Out {
 	multi := 0
 	seenSig := map[string]bool{}
 	var tr drv.Tracer
+	var ns nestedStats
 	type triple struct {
 		Step    string `json:"step"`
 		Cut     int    `json:"cut"`
@@ -273,7 +284,7 @@ func execC05(p *drv.Plan) *Out {
 			cuts++
 			out.Faults["crash."+rec.step.Op]++
 			cls := rec.step.Op + "/" + spacesOf(stepLog, cut-rec.lo)
-			outcome, v := checkCut(p, recs, ri, rec, cut, cls)
+			outcome, v := checkCutN(p, recs, ri, rec, cut, cls, 0, &ns)
 			tr.Add(rec.step.ID, cut-rec.lo, outcome)
 			if len(triples) < 6 {
 				triples = append(triples, triple{rec.step.String(), cut - rec.lo, outcome})
@@ -295,6 +306,14 @@ func execC05(p *drv.Plan) *Out {
 	}
 	out.Stats["cuts_enumerated"] = cuts
 	out.Stats["multi_write_steps"] = multi
+	if p.Mode == "nested" {
+		out.Probes["mode.nested"]++
+		out.Stats["second_stops"] = ns.second
+		out.Stats["other_continuations"] = ns.other
+		if ns.second > 0 {
+			out.Faults["crash.second-stop-in-recovery"] += ns.second
+		}
+	}
 	out.NonTrivial = cuts >= 1
 	out.Trace = fmt.Sprintf("%s-%016x", out.Trace, tr.Sum())
 	out.Sample = map[string]interface{}{"plan": p.Compact(), "cuts": triples}
@@ -313,15 +332,31 @@ func auditCrashState(w *drv.World) *drv.Violation {
 }
 
 func checkCut(p *drv.Plan, recs []*stepRec, ri int, rec *stepRec, cut int, cls string) (string, *drv.Violation) {
+	return checkCutN(p, recs, ri, rec, cut, cls, 0, nil)
+}
+
+// nestedStats counts what the mode "nested" explored (second stops, other continuations).
+type nestedStats struct{ second, other int }
+
+// checkCutN: depth 0 is a stop inside the step itself; depth 1 (mode "nested")
+// is a second stop, inside the recovery open or the retry that followed the first.
+func checkCutN(p *drv.Plan, recs []*stepRec, ri int, rec *stepRec, cut int, cls string, depth int, ns *nestedStats) (string, *drv.Violation) {
 	r := drv.SubRand(p, "c05", rec.step.ID, cut)
+	if depth > 0 {
+		r = drv.SubRand(p, "c05-2nd", rec.step.ID, rec.lo, cut)
+	}
 	img := rec.disk.ImageAt(cut)
 	cfg := p.Config
 	w2 := drv.NewWorld(cfg)
 	w2.UseSim(img)
 	w2.Fast = r.Chance(1, 2)
 	w2.Cache = r.Pick(0, 2, 1000)
+	where := ""
+	if depth > 0 {
+		where = "SECOND stop, during the recovery (open + retry) that followed a first stop inside the step: "
+	}
 	bad := func(symptom, detail string) *drv.Violation {
-		return &drv.Violation{Prop: "C05", Oracle: "C05.old-or-new", Symptom: symptom, Class: cls, Detail: fmt.Sprintf("stop after physical write %d of %d of step %s: %s", cut-rec.lo, rec.hi-rec.lo, rec.step.String(), detail)}
+		return &drv.Violation{Prop: "C05", Oracle: "C05.old-or-new", Symptom: symptom, Class: cls, Detail: fmt.Sprintf("%sstop after physical write %d of %d of step %s: %s", where, cut-rec.lo, rec.hi-rec.lo, rec.step.String(), detail)}
 	}
 	oldM, oldT := committedOnly(rec.preM, rec.preT)
 	newM, newT := committedOnly(rec.postM, rec.postT)
@@ -368,23 +403,94 @@ func checkCut(p *drv.Plan, recs []*stepRec, ri int, rec *stepRec, cut int, cls s
 		}
 		state = "new"
 	}
+	// the model of the state the image showed (before anything is repeated)
+	stM, stT := w2.M.Clone(), w2.T.Clone()
+	nested := p.Mode == "nested" && depth == 0
+	// mode "nested", a third of the stops that showed the old state: the
+	// application does NOT repeat the operation but goes on differently (other
+	// writes for the same version number, then a restart) - "the state before the
+	// operation" must hold for whatever follows, not only for the retry.
+	other := nested && state == "old" && rec.step.Op != drv.OpExpImp && r.Chance(1, 3)
+	if other {
+		if ns != nil {
+			ns.other++
+		}
+		var us []string
+		for k := range w2.Universe {
+			us = append(us, k)
+		}
+		sort.Strings(us)
+		var steps []drv.Step
+		id := 1 << 21
+		for i, n := 0, 1+r.Intn(3); i < n && len(us) > 0; i++ {
+			k := []byte(us[r.Intn(len(us))])
+			if r.Chance(1, 3) {
+				steps = append(steps, drv.Step{ID: id, Op: drv.OpRemove, K: k})
+			} else {
+				steps = append(steps, drv.Step{ID: id, Op: drv.OpSet, K: k, V: []byte(fmt.Sprintf("o%d.%d", cut, i))})
+			}
+			id++
+		}
+		f, c := !w2.Fast, r.Pick(0, 2, 1000)
+		steps = append(steps, drv.Step{ID: id, Op: drv.OpSave}, drv.Step{ID: id + 1, Op: drv.OpReopen, Fast: &f, Cache: &c})
+		for _, st := range steps {
+			if v := w2.Apply(st); v != nil {
+				return "old+other-fails", &drv.Violation{Prop: "C05", Oracle: "C05.continue", Symptom: "retry-diverges", Class: cls, Detail: fmt.Sprintf("%safter a stop at write %d of step %s the image showed the old state, but going on with other writes (%s) failed: %s", where, cut-rec.lo, rec.step.String(), st.String(), v.Error())}
+			}
+		}
+		if v := w2.Guard("C05", "C05.continue", cls, func() *drv.Violation { return auditCrashState(w2) }); v != nil {
+			return "old+other-diverges", &drv.Violation{Prop: "C05", Oracle: "C05.continue", Symptom: "retry-diverges", Class: cls, Detail: fmt.Sprintf("%safter a stop at write %d of step %s (old state), other writes, a commit and a restart: %s", where, cut-rec.lo, rec.step.String(), v.Error())}
+		}
+	}
 	// retry of the interrupted operation (old state), then one more write + commit
-	if state == "old" && rec.step.Op != drv.OpExpImp {
+	if state == "old" && rec.step.Op != drv.OpExpImp && !other {
 		j := ri - 1
 		for j >= 0 && !recs[j].cleanAfter {
 			j--
 		}
 		for _, rr := range recs[j+1 : ri+1] {
 			st := rr.step
-			if st.Op == drv.OpReopen || st.Op == drv.OpLoad || st.Op == drv.OpDVF && rr != rec {
+			if st.Op == drv.OpReopen || st.Op == drv.OpLoad || st.Op == drv.OpDVF && rr != rec.self() {
 				continue
 			}
 			if v := w2.Apply(st); v != nil {
-				return "old+retry-fails", &drv.Violation{Prop: "C05", Oracle: "C05.retry", Symptom: "retry-diverges", Class: cls, Detail: fmt.Sprintf("after a stop at write %d of step %s the image showed the old state, but repeating the operation failed: %s", cut-rec.lo, rec.step.String(), v.Error())}
+				return "old+retry-fails", &drv.Violation{Prop: "C05", Oracle: "C05.retry", Symptom: "retry-diverges", Class: cls, Detail: fmt.Sprintf("%safter a stop at write %d of step %s the image showed the old state, but repeating the operation failed: %s", where, cut-rec.lo, rec.step.String(), v.Error())}
 			}
 		}
 		if v := w2.Guard("C05", "C05.retry", cls, func() *drv.Violation { return auditCrashState(w2) }); v != nil {
-			return "old+retry-diverges", &drv.Violation{Prop: "C05", Oracle: "C05.retry", Symptom: "retry-diverges", Class: cls, Detail: fmt.Sprintf("after a stop at write %d of step %s and a successful retry: %s", cut-rec.lo, rec.step.String(), v.Error())}
+			return "old+retry-diverges", &drv.Violation{Prop: "C05", Oracle: "C05.retry", Symptom: "retry-diverges", Class: cls, Detail: fmt.Sprintf("%safter a stop at write %d of step %s and a successful retry: %s", where, cut-rec.lo, rec.step.String(), v.Error())}
+		}
+	}
+	// mode "nested": a second stop at a boundary between two physical writes of
+	// the recovery itself - the open on the crash image (which rebuilds the fast
+	// index when the label does not fit) and the repeated operation. The image
+	// must again show the state the first image showed or the final state.
+	if nested && !other {
+		if n2 := w2.Sim.LogLen(); n2 >= 2 {
+			rec2 := &stepRec{step: rec.step, idx: rec.idx, lo: 0, hi: n2, disk: w2.Sim, preM: stM, preT: stT, postM: w2.M.Clone(), postT: w2.T.Clone(), cleanAfter: rec.cleanAfter, orig: rec.self()}
+			pick := map[int]bool{}
+			max := 3
+			if n2-1 <= max {
+				for c := 1; c < n2; c++ {
+					pick[c] = true
+				}
+			} else {
+				pick[1], pick[n2-1] = true, true
+				for len(pick) < max {
+					pick[1+r.Intn(n2-1)] = true
+				}
+			}
+			for c := 1; c < n2; c++ {
+				if !pick[c] {
+					continue
+				}
+				if ns != nil {
+					ns.second++
+				}
+				if o2, v := checkCutN(p, recs, ri, rec2, c, cls, 1, ns); v != nil {
+					return state + "+2nd:" + o2, v
+				}
+			}
 		}
 	}
 	if w2.Clean() {
@@ -474,7 +580,7 @@ func init() {
 			"cut positions are enumerated exhaustively per explored history; histories, configurations and the reopening configuration are sampled",
 			"reference models R1/R2 are the specification of 'state before' and 'state after'",
 		},
-		Rule: "one run = one fault-free execution of a generated history on the simulated disk recording the physical write log; then for EVERY multi-write step (commit, deletion of old versions, rollback, import commit, open that builds or rebuilds the fast index) and EVERY boundary strictly between two of its physical writes one evaluation: a fresh tree is opened on the disk image at that boundary (seeded fast/cache configuration) and the whole observable state (version APIs, every read of every retained version through tree walk, fast path and iteration, hashes) must equal the model before or the model after the step; if old, the operation is repeated and must reach the crash-free result; then one more write+commit must be canonical; evaluations = cuts; distinct non-trivial = plans with >=1 cut",
+		Rule: "one run = one fault-free execution of a generated history on the simulated disk recording the physical write log; then for EVERY multi-write step (commit, deletion of old versions, rollback, import commit, open that builds or rebuilds the fast index) and EVERY boundary strictly between two of its physical writes one evaluation: a fresh tree is opened on the disk image at that boundary (seeded fast/cache configuration) and the whole observable state (version APIs, every read of every retained version through tree walk, fast path and iteration, hashes) must equal the model before or the model after the step; if old, the operation is repeated and must reach the crash-free result; then one more write+commit must be canonical. A third of the runs (mode nested) go one level deeper: a SECOND stop at a boundary between two physical writes of the recovery itself (the open on the crash image, which rebuilds the fast index when its label does not fit, and the repeated operation) must again show the first image's state or the final state and recover the same way; and after a third of the stops that show the old state the application does not repeat the operation but commits OTHER writes under the same version number with a handle whose index setting is the opposite of the next one, restarts, and must read exactly those writes through every read path. evaluations = first-level cuts (second stops and other continuations are counted under stats); distinct non-trivial = plans with >=1 cut",
 		Gen: func(seed uint64, run int, tier string) *drv.Plan {
 			p := genPlan("C05", seed, run, c05Bias(tier))
 			// one import of ~21 000 nodes per quick batch (a few per thorough run)
@@ -485,6 +591,11 @@ func init() {
 			}
 			if run%10 == 3 {
 				return genC05Legacy(seed, run, tier)
+			}
+			// a third of the runs: second stops inside the recovery, and stops after
+			// which the application goes on differently (see checkCutN)
+			if run%3 == 1 {
+				p.Mode = "nested"
 			}
 			return p
 		},
